@@ -278,7 +278,7 @@ func c05JSONBases() []struct {
 func TestC05_Structured(t *testing.T) {
 	st := NewStats("C05", "TestC05_Structured", "enumeration: for each base document (CBOR: 6 claims maps of both profiles, a components array, a component map, 2 helper shapes; JSON: the library's own JSON of 4 claims-sets, components, component, a helper shape) every node (keys and values at every depth) x {null, undefined, empty, duplicate, delete, nest in array/map, tag, indefinite, 8-byte head, bstr-wrap, double, swap with sibling, tag18} and x a pool of ~38 replacement items of every CBOR type (JSON: 9 structural mutations x pool of 31 values incl. 300-deep nesting, 1e400, non-base64); each mutant goes to every CBOR (resp. JSON) entry point incl. the per-type unmarshal methods, both extension types and the populate helpers with flat / embedded / interface-embedded destinations, and (wrapped as payload of a correctly signed tag-18 envelope) to the four COSE entry points; the envelope itself is mutated the same way; both profile claims (CBOR -75000 and 265, JSON psa-profile and eat-profile) are set to every PAIR of pool items; after the calls made for each input a canary battery of ordinary operations on unrelated known-good values must still not panic (state left behind by failed calls). Oracle: recover() - no panic while decoding nor while validating / reading every getter / re-encoding to CBOR and JSON / verifying with 10 keys whatever was returned without error. Non-trivial = the input got past the first decoding layer (well-formed CBOR / valid JSON) or was decoded; distinct = family + input")
 	st.Exhaustive = true
-	st.Require = []string{"decoded-ok", "wellformed-rejected", "family=cbor", "family=json", "family=cose", "family=enc-cbor", "family=enc-json", "mut=null", "mut=duplicate", "mut=swap"}
+	st.Require = []string{"decoded-ok", "wellformed-rejected", "family=cbor", "family=json", "family=cose", "family=enc-cbor", "family=enc-json", "mut=null", "mut=duplicate", "mut=swap", "mut=text-length", "mut=cose-header"}
 	defer st.Flush(t)
 	shard, shards := shardInfo()
 	idx := 0
@@ -331,6 +331,103 @@ func TestC05_Structured(t *testing.T) {
 			cborSlots(c)[si].set(repl.Clone())
 			if mine() {
 				c05Run(st, coseFamilies, icbor.Encode(c), "mut=swap").report(t)
+			}
+		}
+	}
+	// every text item of the claims maps (CBOR) and every string of the JSON
+	// documents replaced by n copies of a 1-, 2-, 3- or 4-byte character or
+	// of an invalid byte, n over small values and the neighbourhoods of 64,
+	// 128, 256, 1024 (byte counts and character counts differ)
+	textLens := []int{0, 1, 2, 3, 7, 8, 15, 16, 17, 23, 24, 25, 31, 32, 33, 42, 43, 63, 64, 65, 70, 85, 86, 100, 120, 121, 127, 128, 129, 130, 170, 171, 255, 256, 257, 341, 342, 511, 512, 513, 1023, 1024, 1025}
+	units := []string{"a", "é", "€", "😀", "\xff", "e\u0301"}
+	for _, base := range c05CBORBases() {
+		if !(strings.HasPrefix(base.name, "p1") || strings.HasPrefix(base.name, "p2")) || base.name == "p1-v0" || base.name == "p2-v0" {
+			continue
+		}
+		for si, sl := range cborSlots(base.node) {
+			if sl.get().Kind != icbor.KText || sl.side == 0 {
+				continue
+			}
+			for _, u := range units {
+				for _, n := range textLens {
+					if !mine() {
+						continue
+					}
+					c := base.node.Clone()
+					cborSlots(c)[si].set(icbor.Tstr(strings.Repeat(u, n)))
+					data := icbor.Encode(c)
+					c05Run(st, cborFamilies, data, "mut=text-length").report(t)
+					c05Run(st, coseFamilies, icbor.Encode(c05Envelope(data)), "mut=text-length").report(t)
+				}
+			}
+		}
+	}
+	for _, base := range c05JSONBases() {
+		root, err := parseJN(base.doc)
+		if err != nil || !(strings.HasPrefix(base.name, "p1") || strings.HasPrefix(base.name, "p2")) {
+			continue
+		}
+		for si, sl := range jsonSlots(root) {
+			if sl.get().kind != 's' {
+				continue
+			}
+			for _, u := range units {
+				for _, n := range textLens {
+					if !mine() {
+						continue
+					}
+					c := root.clone()
+					q, _ := json.Marshal(strings.Repeat(u, n))
+					if u == "\xff" { // keep the invalid bytes: write the string raw
+						q = []byte("\"" + strings.Repeat(u, n) + "\"")
+					}
+					jsonSlots(c)[si].set(jRaw(string(q)))
+					c05Run(st, jsonFamilies, []byte(c.String()), "mut=text-length").report(t)
+				}
+			}
+		}
+	}
+	// COSE header parameters: every label 0..40 and a few others, in the
+	// protected or the unprotected bucket, with a value of every type
+	// (arrays of mixed items included), next to the algorithm
+	{
+		kp := keyFor(icose.EdDSA, 0)
+		payload := baseValid(P2, 1).WireBytes()
+		labels := []*icbor.Node{}
+		for l := 0; l <= 40; l++ {
+			labels = append(labels, icbor.U(uint64(l)))
+		}
+		for _, l := range []int64{-1, -2, -65537, 256, 257, 258, 259, 260, 65535, 1 << 40} {
+			labels = append(labels, icbor.I(l))
+		}
+		labels = append(labels, icbor.Tstr("x5chain"), icbor.Tstr(""), icbor.Tstr("alg"))
+		vals := append(cborSwapPool(),
+			icbor.Arr(icbor.Bstr([]byte{0x30, 0x00}), icbor.U(1)), icbor.Arr(icbor.Bstr([]byte{0x30, 0x00}), icbor.Null()),
+			icbor.Arr(icbor.Bstr([]byte{0x30, 0x00}), icbor.Tstr("x")), icbor.Arr(icbor.Arr(icbor.Bstr(nil))), icbor.Arr(icbor.I(-7), icbor.Bstr(make([]byte, 32))),
+			icbor.Arr(icbor.U(1), icbor.U(2)), icbor.Arr(icbor.Tstr("a"), icbor.U(2)), icbor.Arr(icbor.I(-8)), icbor.Tstr("application/json"), icbor.U(60), icbor.U(50),
+			icbor.Map(icbor.P(icbor.U(1), icbor.Tstr("iss")), icbor.P(icbor.U(2), icbor.U(2))))
+		for _, lab := range labels {
+			for _, v := range vals {
+				for bucket := 0; bucket < 2; bucket++ {
+					if !mine() {
+						continue
+					}
+					protMap, unprot := icbor.Map(icbor.P(icbor.U(1), icbor.I(kp.Alg))), icbor.Map()
+					if bucket == 0 {
+						if l, ok := lab.Int(); ok && l == 1 {
+							protMap = icbor.Map()
+						}
+						protMap.Pairs = append(protMap.Pairs, icbor.P(lab.Clone(), v.Clone()))
+					} else {
+						unprot.Pairs = append(unprot.Pairs, icbor.P(lab.Clone(), v.Clone()))
+					}
+					prot := icbor.Encode(protMap)
+					sig, err := icose.Sign(kp.Alg, kp.Priv, prot, payload)
+					if err != nil {
+						t.Fatalf("VERIF-INFRA: %v", err)
+					}
+					c05Run(st, coseFamilies, icbor.Encode(icose.Envelope(prot, unprot, payload, sig)), "mut=cose-header").report(t)
+				}
 			}
 		}
 	}
